@@ -416,7 +416,90 @@ class ForToWhile(ast.NodeTransformer):
         return out
 
 
+class LoopToComp(ast.NodeTransformer):
+    """`L = []` + `for T in IT: [if C:] L.append(E)` (adjacent, T not read afterwards) -> `L = [E for T in IT if C]`."""
+
+    def visit_FunctionDef(self, node):
+        self.generic_visit(node)
+        self.fn = node
+        node.body = self._block(node.body, node)
+        return node
+
+    def _block(self, body, fn):
+        for s in body:
+            for f in ('body', 'orelse', 'finalbody'):
+                b = getattr(s, f, None)
+                if isinstance(b, list) and b and isinstance(b[0], ast.stmt) and not isinstance(s, (ast.FunctionDef, ast.ClassDef)):
+                    setattr(s, f, self._block(b, fn))
+        out = []
+        i = 0
+        while i < len(body):
+            s = body[i]
+            nxt = body[i + 1] if i + 1 < len(body) else None
+            if isinstance(s, ast.Assign) and len(s.targets) == 1 and isinstance(s.targets[0], ast.Name) and isinstance(s.value, ast.List) \
+                    and not s.value.elts and isinstance(nxt, ast.For) and not nxt.orelse and len(nxt.body) == 1:
+                L = s.targets[0].id
+                inner = nxt.body[0]
+                cond = None
+                if isinstance(inner, ast.If) and not inner.orelse and len(inner.body) == 1:
+                    cond, inner = inner.test, inner.body[0]
+                tn = {y.id for y in ast.walk(nxt.target) if isinstance(y, ast.Name)}
+                later = [y for t in ast.walk(fn) for y in [t] if isinstance(y, ast.Name) and y.id in tn and getattr(y, 'lineno', 0) > nxt.end_lineno]
+                if isinstance(inner, ast.Expr) and isinstance(inner.value, ast.Call) and isinstance(inner.value.func, ast.Attribute) and \
+                        inner.value.func.attr == 'append' and isinstance(inner.value.func.value, ast.Name) and inner.value.func.value.id == L \
+                        and len(inner.value.args) == 1 and not inner.value.keywords and not later \
+                        and not any(isinstance(y, ast.Name) and y.id == L for x in [nxt.iter, inner.value.args[0]] + ([cond] if cond else []) for y in ast.walk(x)) \
+                        and not any(isinstance(y, (ast.Yield, ast.Await, ast.NamedExpr)) for y in ast.walk(nxt)):
+                    comp = ast.ListComp(elt=inner.value.args[0], generators=[ast.comprehension(target=nxt.target, iter=nxt.iter, ifs=[cond] if cond else [], is_async=0)])
+                    out.append(ast.copy_location(ast.Assign(targets=[ast.Name(id=L, ctx=ast.Store())], value=comp), s))
+                    i += 2
+                    continue
+            out.append(s)
+            i += 1
+        return out
+
+
+class Walrus(ast.NodeTransformer):
+    """`n = e` immediately followed by `if n <cmp> ...:` / `if n:` / `if not n:` -> `if (n := e) ...:`."""
+
+    def generic_visit(self, node):
+        super().generic_visit(node)
+        for f in ('body', 'orelse', 'finalbody'):
+            b = getattr(node, f, None)
+            if isinstance(b, list) and b and isinstance(b[0], ast.stmt) and not isinstance(node, (ast.Module, ast.ClassDef)):
+                out = []
+                i = 0
+                while i < len(b):
+                    s = b[i]
+                    nxt = b[i + 1] if i + 1 < len(b) else None
+                    done = False
+                    if isinstance(s, ast.Assign) and len(s.targets) == 1 and isinstance(s.targets[0], ast.Name) and isinstance(nxt, ast.If) \
+                            and not isinstance(s.value, (ast.Lambda, ast.Yield)):
+                        n = s.targets[0].id
+                        t = nxt.test
+                        ne = ast.NamedExpr(target=ast.Name(id=n, ctx=ast.Store()), value=s.value)
+                        if isinstance(t, ast.Compare) and isinstance(t.left, ast.Name) and t.left.id == n and \
+                                not any(isinstance(y, ast.Name) and y.id == n for c in t.comparators for y in ast.walk(c)):
+                            t.left = ne
+                            done = True
+                        elif isinstance(t, ast.Name) and t.id == n:
+                            nxt.test = ne
+                            done = True
+                        elif isinstance(t, ast.UnaryOp) and isinstance(t.op, ast.Not) and isinstance(t.operand, ast.Name) and t.operand.id == n:
+                            t.operand = ne
+                            done = True
+                    if done:
+                        out.append(nxt)
+                        i += 2
+                    else:
+                        out.append(s)
+                        i += 1
+                setattr(node, f, out)
+        return node
+
+
 TRANSFORMS = {
+    'loop-to-comp': LoopToComp, 'walrus': Walrus,
     'ternary-to-if': TernaryToIf, 'items-to-keys': ItemsToKeys, 'for-to-while': ForToWhile,
     'keys-to-in': KeysToIn, 'guard-clause': GuardClause, 'temp-cond': TempCond, 'comp-to-loop': CompToLoop,
     'annotate-assign': AnnotateAssign,
